@@ -46,7 +46,8 @@ def collect(ctx: Ctx, n: int, tagp: str):
              EL.call("sumall", {"k": "map", "t": "twice", "xs": EL.call("fan", EL.V(2))}),
              EL.call("kw", EL.V(1), kw=[["c", EL.call("inc", EL.V(0))]]),
              EL.call("chooser", EL.V(5)), EL.call("sumall", EL.call("mid", EL.call("deep", EL.V(2))))]
-    progs = fixed + [PL.prov_expr(ctx.rng, ctx.rng.randint(2, 4)) for _ in range(n)]
+    progs = (fixed + [PL.prov_expr(ctx.rng, ctx.rng.randint(2, 4)) for _ in range(n)]
+             + [PL.dup_call_program(ctx.rng) for _ in range(max(12, n // 3))])
     for i, e in enumerate(progs):
         out, nodes, flags, tree = PL.run_and_read(ctx, e, f"{tagp}{i}", ctx.rng)
         cases.append({"id": i + 1, "e": e, "obs": nodes, "flags": flags, "out": out, "tree": tree})
